@@ -25,7 +25,7 @@ type xmpSpec struct {
 }
 
 func checkC13(p *Prog, r *Report) {
-	r.Explain("The tokenizer's behaviour over all packets (look-ahead windows, quoting, white space) is a run-time matter and is not decided. Decided: NSTBL — the namespace and name tables are mutually inverse over the declared constants: IdentifyNamespace(String(ns)) == ns and IdentifyName(String(n)) == n for every declared constant, by constant folding of the tables (a property whose name is missing from either table is silently dropped); XDISPATCH — for every property of the independent table spec/xmp_props.json, the packet spelling is identified to a name constant, the namespace prefix dispatches in (*XMP).parser to the struct of that namespace, and that struct's parse method has a case for the constant that stores into the field(s) the table assigns; FORMS — attribute form and element form reach the per-namespace parsers through the same function: every call of a parse method is in (*XMP).parser, and in readTag/readSeqTags every successful readAttribute and readTagValue is followed by xmp.parser on every path; QUOTE — wherever the tokenizer compares a byte with a quote constant the byte is at a constant position (the opening quote), and the byte read there is what the search for the closing quote looks for (bytes.IndexByte needle or comparison operand): a value delimited by one quote character may contain the other; RELIDX — an index returned by a search in x[a:] is relative to a: wherever it (or a sum containing it) indexes or slices x itself, a is part of the sum; XTOTAL — every index and slice in the functions of package xmp reachable from ParseXmp is proved in range by E3 with no credit for ParseXmp's recover frame: a panic at the edge of a look-ahead window turns a well-formed packet into an error (for C01 the same panic is contained; for this property it is a lost value); WINFIT — every look-ahead loop of the XMP reader (Peek(s) with s growing by a constant step) reaches, within the reader's buffer size, a window of at least 1027 bytes: a 1024-byte value with its delimiters is readable before ErrBufferFull ends the growth; ROOTSKIP — readRootTag keeps scanning when ReadSlice reports a full buffer without the start of the root element (bytes before the root element are skipped). FORMDEP — outside the tokenizer the attribute/element form of a property (property.pt) is read only under Name() == Rights or Title, the array properties whose rdf:li items carry attributes of their own; no simple property can be treated differently by form. DATEFALL — xmp.parseDate never reports an error before time.Parse with the plain layout 2006-01-02T15:04:05 (the only one accepting a zoneless value with any number of fractional digits) was tried. SEQEXIT — the loops of readTag and readSeqTags leave only on a callee error or a boolean answer of the tokenizer, never on an integer comparison (an item count). XSRC — the tokenizer look-ahead buffer is filled from the reader the caller passed, never from a length-limited view of it. FLOATW — every strconv.ParseFloat in package xmp whose result is used as a float64 passes bitSize 64 (32 would round a coordinate to float32 precision).")
+	r.Explain("The tokenizer's behaviour over all packets (look-ahead windows, quoting, white space) is a run-time matter and is not decided. Decided: NSTBL — the namespace and name tables are mutually inverse over the declared constants: IdentifyNamespace(String(ns)) == ns and IdentifyName(String(n)) == n for every declared constant, by constant folding of the tables (a property whose name is missing from either table is silently dropped); XDISPATCH — for every property of the independent table spec/xmp_props.json, the packet spelling is identified to a name constant, the namespace prefix dispatches in (*XMP).parser to the struct of that namespace, and that struct's parse method has a case for the constant that stores into the field(s) the table assigns; FORMS — attribute form and element form reach the per-namespace parsers through the same function: every call of a parse method is in (*XMP).parser, and in readTag/readSeqTags every successful readAttribute and readTagValue is followed by xmp.parser on every path; QUOTE — wherever the tokenizer compares a byte with a quote constant, the byte read at that position (the opening quote) is what the search for the closing quote looks for (bytes.IndexByte needle or comparison operand): a value delimited by one quote character may contain the other; RELIDX — an index returned by a search in x[a:] is relative to a: wherever it (or a sum containing it) indexes or slices x itself, a is part of the sum; XTOTAL — every index and slice in the functions of package xmp reachable from ParseXmp is proved in range by E3 with no credit for ParseXmp's recover frame: a panic at the edge of a look-ahead window turns a well-formed packet into an error (for C01 the same panic is contained; for this property it is a lost value); WINFIT — every look-ahead loop of the XMP reader (Peek(s) with s growing by a constant step) reaches, within the reader's buffer size, a window of at least 1027 bytes: a 1024-byte value with its delimiters is readable before ErrBufferFull ends the growth; ROOTSKIP — readRootTag keeps scanning when ReadSlice reports a full buffer without the start of the root element (bytes before the root element are skipped). FORMDEP — outside the tokenizer the attribute/element form of a property (property.pt) is read only under Name() == Rights or Title, the array properties whose rdf:li items carry attributes of their own; no simple property can be treated differently by form. DATEFALL — xmp.parseDate never reports an error before time.Parse with the plain layout 2006-01-02T15:04:05 (the only one accepting a zoneless value with any number of fractional digits) was tried. SEQEXIT — the loops of readTag and readSeqTags leave only on a callee error or a boolean answer of the tokenizer, never on an integer comparison (an item count). XSRC — the tokenizer look-ahead buffer is filled from the reader the caller passed, never from a length-limited view of it. FLOATW — every strconv.ParseFloat in package xmp whose result is used as a float64 passes bitSize 64 (32 would round a coordinate to float32 precision).")
 	r.Trusted("spec/xmp_props.json (written from the XMP specification)", "bufio.ReadSlice returns ErrBufferFull when the delimiter is not within one buffer")
 	fd := &folder{p: p}
 	ruleRoundTrip(p, r, fd, "NSTBL", "xmp/xmpns", "Namespace", "String", "IdentifyNamespace", true)
@@ -61,6 +61,8 @@ func checkC13(p *Prog, r *Report) {
 	ruleGpsForm(p, r)
 	ruleRatForm(p, r)
 	ruleDateForms(p, r)
+	ruleWsTok(p, r)
+	r.Floor("WSTOK", 5)
 	r.Floor("DATEFORMS", 7)
 	r.Floor("RATFORM", 5)
 	r.Floor("GPSFORM", 2)
@@ -499,13 +501,21 @@ func ruleQuote(p *Prog, r *Report) {
 		return ia, ok
 	}
 	for _, f := range pkgFns(sp, p) {
+		// a position of the window: the slice and its index, a constant or one SSA value (`buf[1]`, `buf[o]`)
 		type pos struct {
 			buf ssa.Value
 			k   int64
+			v   ssa.Value
 		}
-		opening := map[pos]bool{}
-		bad, at := "", ""
-		n := 0
+		posOf := func(ia *ssa.IndexAddr) pos {
+			if k, ok := constInt(ia.Index); ok {
+				return pos{buf: ia.X, k: k}
+			}
+			return pos{buf: ia.X, v: ia.Index}
+		}
+		opening := map[pos]string{}
+		var order []pos
+		at := ""
 		eachInstr(f, func(_ *ssa.BasicBlock, _ int, in ssa.Instruction) {
 			bo, ok := in.(*ssa.BinOp)
 			if !ok || (bo.Op != token.EQL && bo.Op != token.NEQ) {
@@ -522,27 +532,23 @@ func ruleQuote(p *Prog, r *Report) {
 			if !ok {
 				return
 			}
-			n++
 			if at == "" {
 				at = p.posStr(instrPos(bo))
 			}
-			k, ok := constInt(ia.Index)
-			if !ok {
-				bad = fmt.Sprintf("a byte at a variable position (%s) is compared with a quote constant at %s: the closing quote must be the character that opened the value, not either quote character", shortVal(ia.Index), p.posStr(instrPos(bo)))
-				return
+			ps := posOf(ia)
+			if _, seen := opening[ps]; !seen {
+				opening[ps] = p.posStr(instrPos(bo))
+				order = append(order, ps)
 			}
-			opening[pos{ia.X, k}] = true
 		})
-		if n == 0 {
+		if len(order) == 0 {
 			continue
 		}
 		key := fnName(f) + " | closing quote = opening quote"
-		if bad != "" {
-			r.Bad("QUOTE", key, at, bad)
-			continue
-		}
-		// the opening byte must be what the closing search looks for
-		used := false
+		// the byte at every position that is compared with a quote constant must be what the closing search looks
+		// for: a position whose byte is only tested against both quote characters is a closing test that accepts
+		// either of them
+		used := map[pos]bool{}
 		eachInstr(f, func(_ *ssa.BasicBlock, _ int, in ssa.Instruction) {
 			u, ok := in.(*ssa.UnOp)
 			if !ok || u.Op != token.MUL {
@@ -552,15 +558,15 @@ func ruleQuote(p *Prog, r *Report) {
 			if !ok {
 				return
 			}
-			k, ok := constInt(ia.Index)
-			if !ok || !opening[pos{ia.X, k}] {
+			ps := posOf(ia)
+			if _, isOpen := opening[ps]; !isOpen {
 				return
 			}
 			for _, rf := range refs(u) {
 				switch x := rf.(type) {
 				case ssa.CallInstruction:
 					if sc := x.Common().StaticCallee(); sc != nil && sc.Pkg != nil && sc.Pkg.Pkg.Path() == "bytes" && strings.HasPrefix(sc.Name(), "IndexByte") {
-						used = true
+						used[ps] = true
 					}
 				case *ssa.BinOp:
 					if x.Op == token.EQL || x.Op == token.NEQ {
@@ -569,16 +575,27 @@ func ruleQuote(p *Prog, r *Report) {
 							other = x.Y
 						}
 						if _, isLoad := byteLoad(other); isLoad {
-							used = true
+							used[ps] = true
 						}
 					}
 				}
 			}
 		})
-		if used {
+		bad := ""
+		for _, ps := range order {
+			if !used[ps] {
+				idx := fmt.Sprint(ps.k)
+				if ps.v != nil {
+					idx = shortVal(ps.v)
+				}
+				bad = fmt.Sprintf("the byte at position %s is compared with a quote constant at %s but is not what the closing search looks for: the closing quote must be the character that opened the value, not either quote character", idx, opening[ps])
+				break
+			}
+		}
+		if bad == "" {
 			r.OK("QUOTE", key, at, "quote constants are compared at the opening position only; the byte read there is the needle of the closing search")
 		} else {
-			r.Bad("QUOTE", key, at, "the opening quote is recognised but the byte read there is not what the closing search looks for")
+			r.Bad("QUOTE", key, at, bad)
 		}
 	}
 }
